@@ -1,4 +1,5 @@
 import TorchDataVerif.Proofs.PFInv3
+import TorchDataVerif.Proofs.PFGen
 /-!
 # Property theorems of the Prefetcher thread protocol `TDV.PF` (serving C04, C06, C11, C12, C17)
 
@@ -34,5 +35,298 @@ def aheadRun : List Action :=
 
 example : ∃ s, run cfgEx (init cfgEx) aheadRun = some s ∧ held s = 2 ∧ s.sem = 0 ∧ s.q.length = 2 := by
   refine ⟨_, rfl, ?_⟩; decide
+
+/-! ## C04 — the consumer receives exactly the source sequence -/
+
+/-- the items delivered so far are always a prefix of the source list, in order, without loss or duplication -/
+theorem delivered_prefix {c : Cfg} {s : State} (h : Reachable c s) :
+    delivered s = c.src.take (delivered s).length := by
+  have e := delivered_eq (inv_reachable h)
+  rw [e]; simp
+
+theorem delivered_isPrefix {c : Cfg} {s : State} (h : Reachable c s) : delivered s <+: c.src := by
+  rw [delivered_eq (inv_reachable h)]; exact List.take_prefix _ _
+
+/-- once `next()` has raised StopIteration (or the source's error), everything was delivered -/
+theorem complete {c : Cfg} {s : State} (h : Reachable c s) (hend : 0 < s.nstop + s.errs) :
+    delivered s = c.src := by
+  have hg := (inv2_reachable h).ended hend
+  rw [delivered_eq (inv_reachable h), hg]; exact List.take_of_length_le (by omega)
+
+/-- a source that ends normally never produces an error at the consumer, and StopIteration is only raised at the end -/
+theorem stop_only_at_end {c : Cfg} {s : State} (h : Reachable c s) (hn : 0 < s.nstop) :
+    delivered s = c.src ∧ (c.term = .stop → s.errs = 0) := by
+  refine ⟨complete h (by omega), fun ht => ?_⟩
+  have := (inv2_reachable h).errs_term
+  cases he : s.errs with
+  | zero => rfl
+  | succ n => have := this (by omega); simp [ht] at this
+
+/-- C11: the source's error is raised after exactly the whole item prefix, exactly once, and only if the source failed -/
+theorem error_after_prefix {c : Cfg} {s : State} (h : Reachable c s) (he : 0 < s.errs) :
+    c.term = .error ∧ delivered s = c.src ∧ s.errs = 1 := by
+  have i2 := inv2_reachable h
+  exact ⟨i2.errs_term he, complete h (by omega), by have := i2.errs_le; omega⟩
+
+/-- C11: the terminal of the source is surfaced, never swallowed: once the consumer has processed the end marker,
+    an error source has raised its error exactly once and a normal source has raised StopIteration -/
+theorem terminal_surfaced {c : Cfg} {s : State} (h : Reachable c s) (hg : s.got.length = c.src.length + 1) :
+    (c.term = .error → s.errs = 1) ∧ (c.term = .stop → 0 < s.nstop) :=
+  ⟨((inv2_reachable h).surfaced hg).1, ((inv2_reachable h).surfaced hg).2.1⟩
+
+def exhaustRun : List Action :=
+  [.rInit, .cBoot, .rIsSet, .rAcq, .rEnter, .rLeave, .rAppend, .rPut, .cCall, .cIsSet, .cGet, .cRel, .cPop,
+   .rIsSet, .rAcq, .rEnter, .rLeave, .rPut, .rExit, .cCall, .cIsSet, .cGet, .cRel, .cSet, .cCall, .cIsSet]
+
+def cfgErr : Cfg := { pf := 1, f := 1, src := [5], term := .error, base := 0, startErr := false }
+
+/-- non-vacuity: a run that delivers [5], raises the source error, then StopIteration -/
+example : ∃ s, run cfgErr (init cfgErr) exhaustRun = some s ∧ delivered s = [5] ∧ s.errs = 1 ∧ s.nstop = 1 := by
+  refine ⟨_, rfl, ?_⟩; decide
+
+/-! ## C06 — the checkpoint tracks the consumer position under every interleaving -/
+
+/-- Whenever the consumer is outside `next()`, with `m` items delivered, `get_state()` is
+    (source state after `j*` items, `m − j*`) where `j* = f·⌊m/f⌋` if that is positive, else (initial state, `m`):
+    a function of `m` alone, whatever the reader has done in the meantime. -/
+theorem state_tracks_consumer {c : Cfg} {s : State} (h : Reachable c s) (_hidle : s.cpc = .idle) :
+    let m := (delivered s).length
+    (s.snap, s.steps) =
+      if 0 < c.f ∧ 0 < c.f * (m / c.f) then (c.base + c.f * (m / c.f), m - c.f * (m / c.f)) else (c.base, m) := by
+  have i := inv_reachable h
+  have hm : (delivered s).length = min s.got.length c.src.length := by
+    rw [delivered_eq i]; simp
+  have h1 := i.snap_eq
+  have h2 := i.steps_eq
+  intro m
+  have hm' : m = min s.got.length c.src.length := hm
+  rw [← hm'] at h1 h2
+  by_cases hf : 0 < c.f
+  · have hj := jstar_closed c.f m hf
+    rw [hj] at h1 h2
+    by_cases hp : 0 < c.f * (m / c.f)
+    · simp only [hf, hp, and_self, if_true, Prod.mk.injEq]; omega
+    · simp only [hp, and_false, if_false, Prod.mk.injEq]; omega
+  · have : c.f = 0 := by omega
+    rw [this, jstar_zero] at h1 h2
+    simp only [hf, false_and, if_false, Prod.mk.injEq]; omega
+
+/-- the same closed form holds at every control point of the consumer except between the `pop_version` and the return,
+    in particular it does not depend on how far ahead the reader is -/
+theorem state_closed_form_everywhere {c : Cfg} {s : State} (h : Reachable c s) :
+    s.snap = c.base + jstar c.f (delivered s).length ∧ s.steps + jstar c.f (delivered s).length = (delivered s).length := by
+  have i := inv_reachable h
+  have hm : (delivered s).length = min s.got.length c.src.length := by
+    rw [delivered_eq i]; simp
+  rw [hm]; exact ⟨i.snap_eq, i.steps_eq⟩
+
+def sdRun : List Action :=
+  [.rInit, .cBoot, .rIsSet, .rAcq, .rEnter, .rLeave, .rPut, .rIsSet, .rAcq, .rEnter, .rLeave, .rAppend, .rPut,
+   .cCall, .cIsSet, .cGet, .cRel, .cPop, .cCall, .cIsSet, .cGet, .cRel, .rIsSet, .rAcq, .rEnter, .rLeave, .cPop,
+   .rPut, .cCall, .cIsSet, .cGet, .cRel, .cPop]
+
+/-- non-vacuity: f = 2, three items delivered while the reader ran ahead: state = (snapshot after 2 items, 1 step) -/
+example : ∃ s, run cfgEx (init cfgEx) sdRun = some s ∧ s.cpc = .idle ∧ delivered s = [7, 8, 9] ∧
+    (s.snap, s.steps) = (2, 1) := by
+  refine ⟨_, rfl, ?_⟩; decide
+
+/-! ## C11 — `next()` always terminates -/
+
+/-- C11 progress: while the consumer is inside `next()` (and prefetch_factor ≥ 1) some non-timeout action is enabled:
+    the system can never be in a state where only timeouts can fire, i.e. `next()` cannot wait forever. -/
+theorem progress {c : Cfg} {s : State} (h : Reachable c s) (hpf : 0 < c.pf) (hin : inNext s.cpc = true) :
+    ∃ a : Action, a.isTimeout = false ∧ (step c s a).isSome = true := by
+  have i := inv_reachable h
+  cases hc : s.cpc <;> simp [hc, inNext] at hin
+  · exact ⟨.cIsSet, rfl, by simp [step, Action.isReader, stepC, hc]; split <;> rfl⟩
+  · -- get
+    cases hq : s.q with
+    | cons m r => exact ⟨.cGet, rfl, by simp [step, Action.isReader, stepC, hc, hq]⟩
+    | nil =>
+      have hstop := i.cons_stop (Or.inl hc)
+      have hperm := i.permits
+      have hlen := congrArg List.length i.hist_eq
+      simp [hist, hc, cMsg, hq, npro] at hlen
+      have hge := i.got_end hstop
+      have hserr := i.serr
+      have hrd := i.rdone
+      cases hr : s.rpc
+      · exact ⟨.rInit, rfl, by simp [step, Action.isReader, stepR, hr]⟩
+      · exact ⟨.rIsSet, rfl, by simp [step, Action.isReader, stepR, hr]⟩
+      · refine ⟨.rAcq, rfl, ?_⟩
+        simp [held, hr, rHold, hq, hc, cHold] at hperm
+        simp [step, Action.isReader, stepR, hr]; omega
+      · exact ⟨.rEnter, rfl, by simp [step, Action.isReader, stepR, hr]⟩
+      · refine ⟨.rLeave, rfl, ?_⟩
+        simp [step, Action.isReader, stepR, hr]; split <;> rfl
+      · exact ⟨.rAppend, rfl, by simp [step, Action.isReader, stepR, hr]⟩
+      · exact ⟨.rPut, rfl, by simp [step, Action.isReader, stepR, hr]⟩
+      · exfalso
+        simp [hr, hstop, hc] at hrd hserr
+        simp [hr, rMsg] at hlen
+        cases hrt : s.rterm <;> simp_all
+        omega
+      · exfalso
+        simp [hr, hstop, hc] at hrd hserr
+        simp [hr, rMsg] at hlen
+        cases hrt : s.rterm <;> simp_all
+        omega
+  · rename_i m
+    exact ⟨.cRel, rfl, release_never_overflows h m hc⟩
+  · exact ⟨.cSet, rfl, by simp [step, Action.isReader, stepC, hc]⟩
+  · refine ⟨.cPop, rfl, ?_⟩
+    simp [step, Action.isReader, stepC, hc]; split <;> rfl
+
+def rRank : RPc → Nat
+  | .exited => 0 | .ret => 1 | .insrc => 2 | .next => 3 | .acq => 4 | .top => 5 | .init => 6 | .put _ => 7 | .app _ _ => 8
+
+def cRank : CPc → Nat
+  | .idle | .dead | .closed => 0
+  | .boot | .join | .pop _ | .set _ => 1
+  | .rel _ => 2 | .get => 3 | .top => 4
+
+/-- termination measure: work left for the reader + the consumer's position inside the current call -/
+def measure (c : Cfg) (s : State) : Nat := 9 * (c.src.length + 1 - npro s) + rRank s.rpc + cRank s.cpc
+
+/-- the two actions by which the consumer's caller starts a new operation -/
+def Action.isCall : Action → Bool
+  | .cCall | .cShut => true
+  | _ => false
+
+/-- C11 variant: every action that is neither a timeout nor the start of a new consumer operation strictly decreases
+    `measure`; so between two timeouts only finitely many steps happen, and a `next()` call consists of finitely many
+    steps plus timeouts — together with `progress`: no livelock, no deadlock. -/
+theorem variant {c : Cfg} {s s' : State} (h : Reachable c s) (a : Action) (hs : step c s a = some s')
+    (ht : a.isTimeout = false) (hc : a.isCall = false) : measure c s' < measure c s := by
+  have i := inv_reachable h
+  have h3 := i.pulled_le
+  have h4 := i.rterm_pulled
+  have h5 := i.rterm_pc
+  cases a <;> simp [Action.isTimeout, Action.isCall] at ht hc <;>
+    simp only [step, Action.isReader, stepR, stepC, if_true, Bool.false_eq_true, if_false] at hs <;>
+    (repeat' split at hs) <;> cases hs <;>
+    simp_all [measure, npro, rRank, cRank] <;> (try split) <;> (try split) <;> (try simp_all [rRank, cRank]) <;> (try omega)
+
+/-- non-vacuity of `progress`/`variant`: a state inside `next()` with an empty queue (the consumer is waiting), where the
+    only enabled consumer action is the timeout but the reader can move; the reader step decreases the measure -/
+example : ∃ s s', run cfgEx (init cfgEx) [.rInit, .cBoot, .cCall, .cIsSet] = some s ∧ inNext s.cpc = true ∧ s.q = [] ∧
+    (step cfgEx s .cGet) = none ∧ step cfgEx s .rIsSet = some s' ∧ measure cfgEx s' < measure cfgEx s := by
+  refine ⟨_, _, rfl, ?_, ?_, ?_, rfl, ?_⟩ <;> decide
+
+/-- C11: after the end (or the error) has been observed, every further `next()` raises StopIteration in two consumer
+    steps, without touching the queue or waiting for anything -/
+theorem next_after_end_prompt {c : Cfg} {s : State} (h : Reachable c s) (hidle : s.cpc = .idle)
+    (hend : 0 < s.nstop + s.errs) :
+    ∃ s', run c s [.cCall, .cIsSet] = some s' ∧ s'.cpc = .idle ∧ s'.nstop = s.nstop + 1 ∧ s'.errs = s.errs ∧
+      s'.got = s.got := by
+  have i2 := inv2_reachable h
+  have hstop := (i2.surfaced (i2.ended hend)).2.2
+  refine ⟨{ s with cpc := .idle, nstop := s.nstop + 1 }, ?_, rfl, rfl, rfl, rfl⟩
+  simp [run, step, Action.isReader, stepC, hidle, hstop]
+
+/-! ## C17 — the reader thread is always released -/
+
+/-- distance of the reader from `exited` once the stop event is set -/
+def stopRank : RPc → Nat
+  | .exited => 0 | .ret => 1 | .top => 2 | .init => 3 | .put _ => 3 | .app _ _ => 4 | .insrc => 5 | .next => 6 | .acq => 7
+
+/-- the stop event is never cleared -/
+theorem stop_stable {c : Cfg} {s s' : State} (a : Action) (hs : step c s a = some s') (hstop : s.stop = true) :
+    s'.stop = true := by
+  cases a <;>
+    simp only [step, Action.isReader, stepR, stepC, if_true, Bool.false_eq_true, if_false] at hs <;>
+    (repeat' split at hs) <;> cases hs <;> simp_all
+
+/-- C17 `released`: once shutdown is requested (stop set), EVERY step of the reader (timeouts included) brings it
+    strictly closer to `exited`: it exits within 7 of its own steps, the only step that depends on user code being
+    the return of `next(source)` (`rLeave`, from `insrc`). -/
+theorem released {c : Cfg} {s s' : State} (a : Action) (ha : a.isReader = true) (hs : step c s a = some s')
+    (hstop : s.stop = true) : stopRank s'.rpc < stopRank s.rpc := by
+  cases a <;> simp [Action.isReader] at ha <;>
+    simp only [step, Action.isReader, stepR, if_true] at hs <;>
+    (repeat' split at hs) <;> cases hs <;> simp_all [stopRank] <;> (try split) <;> simp_all [stopRank]
+
+/-- the reader never blocks without a timeout: unless it has exited, one of its actions is enabled -/
+theorem reader_never_stuck (c : Cfg) (s : State) (hr : s.rpc ≠ .exited) :
+    ∃ a : Action, a.isReader = true ∧ (step c s a).isSome = true := by
+  cases hp : s.rpc
+  · exact ⟨.rInit, rfl, by simp [step, Action.isReader, stepR, hp]⟩
+  · exact ⟨.rIsSet, rfl, by simp [step, Action.isReader, stepR, hp]⟩
+  · by_cases h0 : 0 < s.sem
+    · exact ⟨.rAcq, rfl, by simp [step, Action.isReader, stepR, hp, h0]⟩
+    · exact ⟨.rAcqT, rfl, by simp [step, Action.isReader, stepR, hp]; omega⟩
+  · exact ⟨.rEnter, rfl, by simp [step, Action.isReader, stepR, hp]⟩
+  · refine ⟨.rLeave, rfl, ?_⟩
+    simp [step, Action.isReader, stepR, hp]; split <;> rfl
+  · exact ⟨.rAppend, rfl, by simp [step, Action.isReader, stepR, hp]⟩
+  · exact ⟨.rPut, rfl, by simp [step, Action.isReader, stepR, hp]⟩
+  · exact ⟨.rExit, rfl, by simp [step, Action.isReader, stepR, hp]⟩
+  · exact absurd hp hr
+
+/-- after `_shutdown` has set the event, a reader outside the source exits by its own steps alone:
+    the run `rAcqT/rAcq …` to `exited` never needs the consumer -/
+theorem released_without_consumer {c : Cfg} {s s' : State} (a : Action) (ha : a.isReader = true)
+    (hs : step c s a = some s') : s'.cpc = s.cpc ∧ s'.stop = s.stop := by
+  cases a <;> simp [Action.isReader] at ha <;>
+    simp only [step, Action.isReader, stepR, if_true] at hs <;>
+    (repeat' split at hs) <;> cases hs <;> simp
+
+/-- non-vacuity of `released`: shutdown while the reader waits for a permit (queue full): timeout, stop test, return, exit -/
+example : ∃ s s', run cfgEx (init cfgEx) (aheadRun ++ [.cBoot, .rIsSet, .cShut]) = some s ∧ s.stop = true ∧ s.rpc = .acq ∧
+    run cfgEx s [.rAcqT, .rIsSet, .rExit] = some s' ∧ s'.rpc = .exited := by
+  refine ⟨_, _, rfl, ?_, ?_, rfl, ?_⟩ <;> decide
+
+/-- non-vacuity of `next_after_end_prompt` -/
+example : ∃ s, run cfgErr (init cfgErr) exhaustRun = some s ∧ s.cpc = .idle ∧ 0 < s.nstop + s.errs := by
+  refine ⟨_, rfl, ?_⟩; decide
+
+/-! ## C12 — the source is driven by one thread at a time: FALSE on the current code -/
+
+/-- full-strength statement: in every reachable state of the generation layer at most one thread is inside the source -/
+def single_driver_statement : Prop :=
+  ∀ (c0 : Cfg) (as : List GAction) (g : GState), grun (ginit c0) as = some g → readersInSource g ≤ 1
+
+/-- `Prefetcher.reset()` while the reader is inside a slow `next(source)`: both timed joins (`_shutdown`, then `__del__`
+    → `_shutdown`) give up, the consumer resets the source and starts a second reader, which enters the source too. -/
+def twoDriversRun : List GAction :=
+  [.cur .rInit, .cur .cBoot, .cur .rIsSet, .cur .rAcq, .cur .rEnter,
+   .cur .cShut, .cur .cJoinT, .cur .cShut, .cur .cJoinT, .reset cfgEx,
+   .cur .rInit, .cur .cBoot, .cur .rIsSet, .cur .rAcq, .cur .rEnter]
+
+theorem two_drivers_witness :
+    ∃ g, grun (ginit cfgEx) twoDriversRun = some g ∧ readersInSource g = 2 ∧ liveReaders g = 2 := by
+  refine ⟨_, rfl, ?_⟩; decide
+
+theorem single_driver_statement_false : ¬ single_driver_statement := by
+  intro h
+  obtain ⟨g, hg, h2, _⟩ := two_drivers_witness
+  have := h cfgEx twoDriversRun g hg
+  omega
+
+/-- C12 `single_driver_partial`: as long as no timed join gives up (which by `released` can only happen while the reader
+    is inside a slow source, or is starved for 0.5 s), every abandoned reader has exited before the source is reset, so at
+    most one thread is ever inside the source and at most one reader thread is alive. -/
+theorem single_driver_partial (c0 : Cfg) (as : List GAction) (g : GState) (hr : grun (ginit c0) as = some g)
+    (hne : ∀ a ∈ as, a.isJoinGiveUp = false) : readersInSource g ≤ 1 ∧ liveReaders g ≤ 1 := by
+  have hi : GInv (ginit c0) := ⟨by simp [Joined, ginit, init], by simp [ginit]⟩
+  obtain ⟨_, ho⟩ := ginv_run as hi hr hne
+  have z1 : (g.old.map fun p => inSource p.2).sum = 0 :=
+    sum_map_zero _ _ (fun p hp => by simp [inSource, ho p hp])
+  have z2 : (g.old.map fun p => if p.2.rpc = .exited then 0 else 1).sum = 0 :=
+    sum_map_zero _ _ (fun p hp => by simp [ho p hp])
+  unfold readersInSource liveReaders
+  rw [z1, z2]
+  unfold inSource
+  constructor <;> split <;> omega
+
+def cleanResetRun : List GAction :=
+  [.cur .rInit, .cur .cBoot, .cur .rIsSet, .cur .rAcq, .cur .rEnter, .cur .rLeave, .cur .rPut,
+   .cur .cShut, .cur .rIsSet, .cur .rExit, .cur .cJoin, .cur .cShut, .cur .cJoin, .reset cfgEx,
+   .cur .rInit, .cur .cBoot, .cur .rIsSet, .cur .rAcq, .cur .rEnter]
+
+/-- non-vacuity of `single_driver_partial`: a mid-epoch reset whose joins wait for the reader -/
+example : (∀ a ∈ cleanResetRun, a.isJoinGiveUp = false) ∧
+    ∃ g, grun (ginit cfgEx) cleanResetRun = some g ∧ g.old.length = 1 ∧ readersInSource g = 1 := by
+  refine ⟨by decide, _, rfl, ?_⟩; decide
 
 end TDV.PF
